@@ -146,6 +146,12 @@ def assignableSure (files : Disk) (t : NType) : Bool :=
   ((Ctor.flatten t.tree).filter (·.isEmbeded)).all (fun e =>
     (((lookupIface files (e.name ++ "Getter")).getD []) ++ ((lookupIface files (e.name ++ "Setter")).getD [])).all (accessorSure t))
 
+/-- two visible fields of one name (promoted ambiguously through two embedded structs, or colliding after the tool's
+    bookkeeping): which of them the tool keeps is the constructor model's subject (C02), not this one's – advisory -/
+def ambiguousNames (t : NType) : Bool :=
+  let vis := ((Ctor.flatten t.tree).filter (fun f => !f.isShadowed && !f.isEmbeded)).map (·.name)
+  vis.eraseDups.length != vis.length
+
 def mapCtorRelevant (st : MSt) (t : MType) : Bool :=
   match t.dest with
   | none => false
